@@ -24,7 +24,7 @@ import numpy as np
 import pennylane as qp
 
 from .. import devsim, lib, measalg as ma, tapeeval
-from ..codec import OffLattice, decode_gate, encode_ops
+from ..codec import OffLattice, decode_gate
 from ..lib import CheckResult
 from ..paulis import Agg
 
@@ -279,10 +279,19 @@ def _snc(gs):
 DIAG_SUPPORTED = {"z": None, "xyz": [qp.X, qp.Y, qp.Z], "xz": [qp.X, qp.Z], "had": [qp.Hadamard]}
 
 
+class DiagStage(Exception):
+    """diagonalize_measurements did not accept its input (any exception class): the statement only covers accepted sets"""
+
+
 def _diag(mode):
-    if DIAG_SUPPORTED[mode] is None:
-        return lambda t: qp.transforms.diagonalize_measurements(t)
-    return lambda t: qp.transforms.diagonalize_measurements(t, supported_base_obs=DIAG_SUPPORTED[mode])
+    def f(t):
+        try:
+            if DIAG_SUPPORTED[mode] is None:
+                return qp.transforms.diagonalize_measurements(t)
+            return qp.transforms.diagonalize_measurements(t, supported_base_obs=DIAG_SUPPORTED[mode])
+        except Exception as e:  # noqa: BLE001
+            raise DiagStage(f"{type(e).__name__}: {e}") from e
+    return f
 
 
 def chain(first, second):
@@ -353,64 +362,6 @@ def promised_relation(c, tape):
     return "qwc"
 
 
-# ------------------------------------------------------------------------------------------------ evaluation pool
-class EvalPool:
-    """TapeEval requests, one per distinct (n, operation records); tapes that share their operations share the evaluation."""
-
-    def __init__(self):
-        self.key, self.items = {}, []
-
-    def add(self, n, ops, words, pws):
-        k = json.dumps([n, ops])
-        if k not in self.key:
-            self.key[k] = len(self.items)
-            self.items.append({"n": n, "ops": ops, "words": [], "pws": [], "ws": set(), "ps": set()})
-        it = self.items[self.key[k]]
-        for w in words:
-            if tuple(w) not in it["ws"]:
-                it["ws"].add(tuple(w))
-                it["words"].append(tuple(w))
-        for w in pws:
-            if tuple(w) not in it["ps"]:
-                it["ps"].add(tuple(w))
-                it["pws"].append(tuple(w))
-        return self.key[k]
-
-    def run(self, pid, M_):
-        tc = [{"n": it["n"], "ops": it["ops"], "meas": ma.tlc_requests(it["words"], it["pws"], True)} for it in self.items]
-        res, stats = tapeeval.evaluate(pid, tc, M_, raw=True)
-        self.ev = [ma.Exact(it["words"], it["pws"], r["meas"], M_, True) for it, r in zip(self.items, res)]
-        return stats
-
-
-def pl_result(descs, evs, wpos, n, batched):
-    vals = []
-    for d in descs:
-        per = [ma.value(d, ev, wpos, n) for ev in evs]
-        vals.append(np.stack([np.asarray(p) for p in per]) if batched else per[0])
-    return tuple(vals) if len(vals) != 1 else vals[0]
-
-
-def same(got, exp, nmeas):
-    g = list(got) if nmeas != 1 and isinstance(got, (tuple, list)) else [got]
-    e = list(exp) if nmeas != 1 else [exp]
-    if nmeas != 1 and (not isinstance(got, (tuple, list)) or len(g) != len(e)):
-        return False, "result-structure", 0
-    for i, (a, b) in enumerate(zip(g, e)):
-        try:
-            a = np.asarray(qp.math.toarray(a) if not isinstance(a, (float, int, complex, np.ndarray, np.generic)) else a, dtype=complex)
-        except Exception:  # noqa: BLE001
-            return False, "result-structure", i
-        b = np.asarray(b, dtype=complex)
-        if a.shape != b.shape:
-            if a.size == b.size and np.allclose(a.reshape(-1), b.reshape(-1), atol=1e-8, rtol=0):
-                return False, "result-shape", i
-            return False, "result-value", i
-        if not np.allclose(a, b, atol=1e-8, rtol=0):
-            return False, "result-value", i
-    return True, "", 0
-
-
 def mstr(ms):
     return [str(m) for m in ms]
 
@@ -418,9 +369,10 @@ def mstr(ms):
 # ------------------------------------------------------------------------------------------------ the check
 def run(tier, seed):
     cases = gen_cases(tier, seed)
-    agg, pool = Agg(), EvalPool()
+    agg, pool = Agg(), ma.EvalPool()
     st = {"calls": 0, "rejected": {}, "expected_rejections": 0, "out_tapes": 0, "multi_tape_batches": 0, "by_transform": {},
-          "broadcast_cases": 0, "identity_or_offset_terms": 0, "repeated_words": 0, "nonpauli_obs": 0, "not_rejected_nonqwc": 0}
+          "broadcast_cases": 0, "identity_or_offset_terms": 0, "repeated_words": 0, "nonpauli_obs": 0, "not_rejected_nonqwc": 0,
+          "diag_refused_qwc_input": {}, "diag_refusal_examples": []}
     work = []
     for c in cases:
         n, labels = c["n"], c["labels"]
@@ -443,10 +395,14 @@ def run(tier, seed):
             outs, fn = transform_of(c["tr"])(tape)
             outs = list(outs)
         except Exception as e:  # noqa: BLE001
-            cls = type(e).__name__
+            cls = type(e).__name__ if not isinstance(e, DiagStage) else "diag:" + str(e).split(":")[0]
             st["rejected"][cls] = st["rejected"].get(cls, 0) + 1
             if may_reject:
                 st["expected_rejections"] += 1
+            elif isinstance(e, DiagStage):
+                st["diag_refused_qwc_input"][cls] = st["diag_refused_qwc_input"].get(cls, 0) + 1
+                if len(st["diag_refusal_examples"]) < 3 and cls not in [x[0] for x in st["diag_refusal_examples"]]:
+                    st["diag_refusal_examples"].append((cls, str(e)[:160], before[1]))
             else:
                 agg.add(f"{key}:unexpected-exception:{cls}", f"{key} raised {cls}: {e} on measurements {before[1]}", {"case": c})
             continue
@@ -461,7 +417,7 @@ def run(tier, seed):
         for t in outs:
             try:
                 var_ops = ma.variants_of(t)
-                recs = [encode_ops(ops, wpos, M) for ops in var_ops]
+                recs = [ma.encode_exact(ops, wpos, M) for ops in var_ops]
             except (OffLattice, KeyError) as e:
                 bad = f"{type(e).__name__}: {e}"
                 break
@@ -487,8 +443,8 @@ def run(tier, seed):
         c, n, wpos, key = w["c"], w["c"]["n"], w["wpos"], w["key"]
         in_evs = [pool.ev[i] for i in w["in_ids"]]
         try:
-            exp = pl_result(w["in_desc"], in_evs, wpos, n, c["batch"] is not None)
-            results = tuple(pl_result(o["desc"], [pool.ev[i] for i in o["ids"]], wpos, n, o["batched"]) for o in w["outs"])
+            exp = ma.pl_result(w["in_desc"], in_evs, wpos, n, c["batch"] is not None)
+            results = tuple(ma.pl_result(o["desc"], [pool.ev[i] for i in o["ids"]], wpos, n, o["batched"]) for o in w["outs"])
         except ma.NonPauli as e:
             agg.add(f"{key}:output-measurement-not-evaluable", f"{key}: {e}", {"case": c})
             continue
@@ -500,10 +456,12 @@ def run(tier, seed):
         except Exception as e:  # noqa: BLE001
             agg.add(f"{key}:postprocessing-exception:{type(e).__name__}", f"post-processing raised {type(e).__name__}: {e}; {shown}", {"case": c, **shown})
             continue
-        ok, why, idx = same(got, exp, len(w["in_desc"]))
+        ok, why, idx = ma.same(got, exp, len(w["in_desc"]))
         n_cmp += len(w["in_desc"])
         if not ok:
             mk = c["meas"][idx]["k"] if idx < len(c["meas"]) else "?"
+            if idx < len(c["meas"]) and any(not any(w_) and co != 1.0 for co, w_ in c["meas"][idx].get("terms", [])):
+                mk += ":identity-term-with-coefficient"
             agg.add(f"{key}:{why}:{mk}", f"{key}: measurement {idx} ({shown['measurements'][idx] if idx < len(shown['measurements']) else '?'}): "
                     f"post(exact results of outputs) = {_show(got, idx, len(w['in_desc']))}, exact result of the input = {_show(exp, idx, len(w['in_desc']))}; {shown}",
                     {"case": c, **shown})
